@@ -287,7 +287,7 @@ func judgeCrashImage(c *core.Case, img crashImage, name string, before, after mo
 func runC05(c *core.Case) {
 	shape := c05Shapes[c.Index%len(c05Shapes)]
 	variant := c.Index / len(c05Shapes)
-	ps := []uint32{512, 4096, 1024, 512, 8192, 4096}[variant%6]
+	ps := []uint32{512, 4096, 1024, 65536, 8192, 4096}[variant%6]
 	jmode := []string{"delete", "truncate", "persist"}[variant%3]
 	c.Count("shape_"+shape, 1)
 	if shape == "replica-apply" || shape == "replica-snapshot" {
@@ -607,7 +607,7 @@ func runC05(c *core.Case) {
 		led.put("db", before, ref.NewImage(ps))
 		ps2 := ps
 		if variant%2 == 1 {
-			ps2 = map[uint32]uint32{512: 1024, 1024: 4096, 4096: 512, 8192: 4096}[ps]
+			ps2 = map[uint32]uint32{512: 1024, 1024: 4096, 4096: 512, 8192: 4096, 65536: 1024}[ps]
 		}
 		detail["recreated_page_size"] = ps2
 		w2, err := newWriter(n, "db", ps2, false, jmode, nil, c.SubRng("w2"), led, 1)
